@@ -40,6 +40,11 @@ CLAIMED = {
         design="4/C07",
         note="Trusted: as C05. Concurrent arrivals for the last slot are covered by the PB schedules of C03 when present, not by this sequential model.",
         technique="Coq proof (capacity invariant over fold_left step + iff decision theorems) + vm_compute correspondence"),
+    "C10": dict(
+        text="Coq theorems over Model F: server-side reassembly for ALL message lists and ALL chunkings of the byte stream (each message handled once, in order, payload cut at the header length, buffer empty at the end; chunking-invariant even for malformed streams; the loop terminates), one Done per handled message, client-side reassembly for any prefix-free codec with the concrete return-message layouts shown prefix-free, byte-stream integrity of the classical socket; `_refuted` theorems with concrete witnesses for what the code violates (reply routed to the last-opened connection; unframed classical socket: coalescing and truncation) — these are listed known findings. Tie: the real NetQASMProtocol / SimulaQronConnection._handle_reply / Socket objects are fed all chunkings (exhaustive for short streams) and compared with the model in Coq.",
+        design="9.5/C10 (notes/C10.md)",
+        note="Trusted: Coq kernel; netqasm message (de)serialisers (their prefix-rejection is checked per run, not proved); handlers are synchronous in model and harness; real TCP buffering replaced by chosen chunkings / a local socketpair.",
+        technique="Coq proof (induction over chunk lists / message lists, prefix-free codec lemma, refutation witnesses) + vm_compute correspondence"),
     "C16": dict(
         text="Coq theorems over Model C (configuration store with the OS port probe as an arbitrary oracle) for EVERY edit sequence: no two endpoints share (host, port) in memory or on disk (inductive invariant preserved by all 8 operations incl. refused ones), a removed node is gone from node list, topology keys and neighbour lists and stays gone, write/read round trip, node id = index in the verified sorted name list with both lookups mutual inverses and reader-independent. Tie: after every edit of random edit sequences the real NetworksConfigConstructor / SocketsConfig / SimulaQronNetworkInfo results equal the model's (vm_compute), independent Python oracle states the property directly.",
         design="9.5/C16 (notes/C16.md)",
